@@ -58,8 +58,12 @@ var c02Site = map[string]string{
 	// inside an included template and inside a macro called from the body
 	"loops": "{% for a in l %}{% for b in l %}{{ b }}{{ tick() }}{% endfor %}{% if not loop.last %},{% endif %}{{ loop.index }}{{ tick() }}{% include 'a/p' %}{{ loop.revindex }}{% endfor %}{{ loop.length }}{{ tick() }}{% for k, x in m %}{{ loop.index0 }}{{ k }}{% endfor %}{{ loop.first ? 'F' : 'f' }}",
 	// helpers with state of their own behind the operators: different patterns / formats in overlapping renders
-	"rx1":     "{{ v matches '/^[a-z]/' ? 'L' : 'l' }}{{ tick() }}{{ 'Abc' matches '/^a/i' ? 'I' : 'i' }}{{ p.Name matches '/n$/' ? 'N' : 'n' }}{{ tick() }}{{ 12345.678|number_format(2, '.', ',') }}{{ v|replace('a', 'b') }}",
-	"rx2":     "{{ v matches '/[0-9]$/' ? 'D' : 'd' }}{{ tick() }}{{ 'Abc' matches '/^a/' ? 'I' : 'i' }}{{ 'xyz' matches '/^x/' ? 'X' : 'x' }}{{ tick() }}{{ 0.5|number_format(1, ',', '.') }}{{ v|replace('v', 'w') }}{{ '%s=%d'|format(v, 3) }}",
+	"rx1": "{{ v matches '/^[a-z]/' ? 'L' : 'l' }}{{ tick() }}{{ 'Abc' matches '/^a/i' ? 'I' : 'i' }}{{ p.Name matches '/n$/' ? 'N' : 'n' }}{{ tick() }}{{ 12345.678|number_format(2, '.', ',') }}{{ v|replace('a', 'b') }}",
+	"rx2": "{{ v matches '/[0-9]$/' ? 'D' : 'd' }}{{ tick() }}{{ 'Abc' matches '/^a/' ? 'I' : 'i' }}{{ 'xyz' matches '/^x/' ? 'X' : 'x' }}{{ tick() }}{{ 0.5|number_format(1, ',', '.') }}{{ v|replace('v', 'w') }}{{ '%s=%d'|format(v, 3) }}",
+	// literals (a shared tree must not remember what one render made of them) and macro parameter defaults, which
+	// are evaluated in the caller's context on every call
+	"a/lib2":  "{% macro g(x, pre = v, n = l|length) %}{{ pre }}:{{ x }}:{{ n }}{{ tick() }}{% endmacro %}{% macro h(q = m.k ~ '!') %}{{ q }}{% endmacro %}",
+	"lits":    "{% import 'a/lib2' as L %}{% for i in [1, 2, 3] %}{{ i }}{{ tick() }}{% endfor %}{{ ['a', 'b']|join('-') }}{{ {'k': 1, 'j': 'x'}|keys|join(',') }}{{ L.g('x') }}{{ tick() }}{{ L.h() }}{{ L.g(v, 'p') }}{{ 'b' in ['a', 'b'] ? 'in' : 'out' }}{{ [1.5, 'z', true]|length }}{{ ['x', 'y']|first }}{{ tick() }}{{ L.h() }}",
 	"hot":     "H0:{{ v }}{{ tick() }}",
 	"opt":     "[{% include 'late' ignore missing %}]{{ tick() }}",
 	"fsdoc":   "H0:{{ tick() }}",
@@ -125,9 +129,9 @@ func (propC02) Gen(seed uint64, ex map[string]bool) interface{} {
 			sc.Preload = append(sc.Preload, n)
 		}
 	}
-	renderable := []string{"a/x", "b/y", "a/sub/z", "b/w", "a/m", "b/m", "plain", "inc2", "long", "a/p", "b/p", "sbox", "nosb", "sbox", "nosb", "loops", "loops", "rx1", "rx2", "rx1", "rx2"}
+	renderable := []string{"a/x", "b/y", "a/sub/z", "b/w", "a/m", "b/m", "plain", "inc2", "long", "a/p", "b/p", "sbox", "nosb", "sbox", "nosb", "loops", "loops", "rx1", "rx2", "rx1", "rx2", "lits", "lits"}
 	if ex["relative-names"] {
-		renderable = []string{"plain", "inc2", "long", "a/p", "b/p", "sbox", "nosb", "loops", "rx1", "rx2"}
+		renderable = []string{"plain", "inc2", "long", "a/p", "b/p", "sbox", "nosb", "loops", "rx1", "rx2", "lits"}
 	}
 	if len(sc.Extra) > 0 {
 		renderable = append(renderable, names[len(names)-1])
